@@ -449,6 +449,9 @@ def webhook_concrete(host, configured_host, bad):
 def replay(data):
     common.install_common_stubs()
     _quiet()
+    if data.get('kind') == 'userdict':
+        from . import userdict
+        return userdict.replay(data)
     if data['part'] == 'login':
         return True          # the path was run concretely (the choices are finite)
     if data['part'] == 'api':
@@ -627,6 +630,8 @@ def check(rep):
     if extra:
         rep.error('unmodelled API rule(s): %s' % extra)
     login_part(rep)
+    from . import userdict
+    userdict.check(rep, 'C14')          # session['admin'] = user in settings.admins (loaded objects)
     cases = branch_cases(rep)
     cfgs = []
     for ep, name, m in api_rules:
